@@ -4,6 +4,7 @@
 import MitmVerif.Model.C38
 import MitmVerif.Gen.C38
 import MitmVerif.Lemmas.C38_Conv
+import MitmVerif.Lemmas.C38_Host
 namespace MitmVerif.Props.C38
 open MitmVerif.C38 MitmVerif.Gen.C38
 
@@ -97,6 +98,7 @@ def touched : Nat → List Bytes
   | 15 => [s "timestamp_created"]
   | 16 => [s "mode"]
   | 17 => [s "client_conn"]
+  | 18 => [s "client_conn", s "server_conn"]
   | 19 => [s "client_conn", s "server_conn"]
   | 20 => [s "client_conn", s "server_conn"]
   | _ => []
@@ -114,6 +116,7 @@ theorem conv_body (v : Nat) (f : Dict → Option Dict) (d d' : Dict) (m : Bytes)
   · exact body_15 d d' m h hm
   · exact body_16 d d' m h hm
   · exact body_17 d d' m h hm
+  · exact body_18 d d' m h hm.1 hm.2
   · exact body_19 d d' m h hm.1 hm.2
   · exact body_20 d d' m h hm.1 hm.2
 
@@ -213,6 +216,163 @@ theorem timestamp_created_from_request (d d' : Dict) (r : Dict) (hr : dget d (s 
   cases hw
   rw [dget_dset_same, hts]
 
+
+/-! #### 18→19: connection fields renamed, host names decoded -/
+
+/-- **conv_18_19_spec.** 18→19 rewrites exactly the two connection records, each by its own function. -/
+theorem conv_18_19_spec (d d' : Dict) (h : conv_18_19 d = some d') :
+    ∃ cc sc cc' sc', dget d (s "client_conn") = some (.dict cc) ∧ dget d (s "server_conn") = some (.dict sc) ∧
+      client18 cc = some cc' ∧ server18 sc = some sc' ∧
+      dget d' (s "client_conn") = some (.dict cc') ∧ dget d' (s "server_conn") = some (.dict sc') := by
+  unfold conv_18_19 at h
+  simp only [Option.bind_eq_bind, Option.bind_eq_some_iff, Option.pure_def, Option.some.injEq] at h
+  obtain ⟨cc, ⟨vc, hvc, hcc⟩, sc, ⟨vs, hvs, hsc⟩, cc', hcc', sc', hsc', rfl⟩ := h
+  cases vc <;> simp only [asDict, Option.some.injEq, reduceCtorEq] at hcc
+  cases vs <;> simp only [asDict, Option.some.injEq, reduceCtorEq] at hsc
+  subst hcc hsc
+  refine ⟨_, _, cc', sc', ?_, ?_, hcc', hsc', ?_, dget_dset_same _ _ _⟩
+  · rw [← hvc]; exact (dget_dset_ne _ _ _ _ (by decide +kernel)).symm
+  · rw [← hvs]; exact (dget_dset_ne _ _ _ _ (by decide +kernel)).symm
+  · rw [dget_dset_ne _ _ _ _ (by decide +kernel)]; exact dget_dset_same _ _ _
+
+/-- **client_frame_18_19.** In the client record only the named fields move; `sni`, `alpn`, `id`, `proxy_mode`,
+    `timestamp_end`, `certificate_list`, `tls_version` … are what they were. -/
+theorem client_frame_18_19 (cc cc' : Dict) (m : Bytes) (h : client18 cc = some cc')
+    (h0 : (s "tls_extensions" == m) = false) (h00 : (s "timestamp_start" == m) = false)
+    (h1 : (s "tls_established" == m) = false) (h2 : (s "cipher_name" == m) = false)
+    (h3 : (s "cipher" == m) = false) (h4 : (s "transport_protocol" == m) = false)
+    (h5 : (s "peername" == m) = false) (h6 : (s "sockname" == m) = false) (h7 : (s "address" == m) = false) :
+    dget cc' m = dget cc m := by
+  unfold client18 at h
+  split at h
+  · rw [conn18_frame _ _ m h h1 h2 h3 h4 h5 h6 h7, dget_dpop_ne _ _ _ h0]
+    unfold client18pre
+    rw [dget_tsDefault_ne _ _ h00, dget_rename_ne _ _ _ _ h7 h5]
+  · cases h
+
+/-- **client_renames_18_19.** The client record loses `tls_extensions`, `tls_established`, `cipher_name`; `cipher` is
+    the old `cipher_name`; there is a transport protocol. -/
+theorem client_renames_18_19 (cc cc' : Dict) (h : client18 cc = some cc') :
+    dget cc' (s "tls_extensions") = none ∧ dget cc' (s "tls_established") = none ∧ dget cc' (s "cipher_name") = none ∧
+    dget cc' (s "cipher") = some ((dget cc (s "cipher_name")).getD .null) ∧
+    (dget cc' (s "transport_protocol")).isSome = true := by
+  unfold client18 at h
+  split at h
+  · obtain ⟨a, b, c, e⟩ := conn18_renames _ _ h
+    refine ⟨?_, a, b, ?_, e⟩
+    · rw [conn18_frame _ _ _ h (by decide +kernel) (by decide +kernel) (by decide +kernel) (by decide +kernel)
+        (by decide +kernel) (by decide +kernel) (by decide +kernel)]
+      exact dget_dpop_same _ _
+    · rw [c, dget_dpop_ne _ _ _ (by decide +kernel)]
+      unfold client18pre
+      rw [dget_tsDefault_ne _ _ (by decide +kernel), dget_rename_ne _ _ _ _ (by decide +kernel) (by decide +kernel)]
+  · cases h
+
+/-- **server_frame_18_19.** In the server record only the named fields move. -/
+theorem server_frame_18_19 (sc sc' : Dict) (m : Bytes) (h : server18 sc = some sc')
+    (g1 : (s "ip_address" == m) = false) (g2 : (s "source_address" == m) = false) (g3 : (s "via2" == m) = false)
+    (g4 : (s "via" == m) = false) (g5 : (s "sni" == m) = false)
+    (h1 : (s "tls_established" == m) = false) (h2 : (s "cipher_name" == m) = false)
+    (h3 : (s "cipher" == m) = false) (h4 : (s "transport_protocol" == m) = false)
+    (h5 : (s "peername" == m) = false) (h6 : (s "sockname" == m) = false) (h7 : (s "address" == m) = false) :
+    dget sc' m = dget sc m := by
+  unfold server18 at h
+  simp only [Option.bind_eq_bind, Option.bind_eq_some_iff] at h
+  obtain ⟨c1, hc1, h⟩ := h
+  rw [sniFix_frame _ _ _ h g5, conn18_frame _ _ m hc1 h1 h2 h3 h4 h5 h6 h7]
+  unfold server18pre
+  rw [dget_rename_ne _ _ _ _ g3 g4, dget_rename_ne _ _ _ _ g2 h6, dget_rename_ne _ _ _ _ g1 h5]
+
+/-- **server_renames_18_19.** `via` is the old `via2` (it is not a host pair, so no decode touches it). -/
+theorem server_renames_18_19 (sc sc' : Dict) (h : server18 sc = some sc') :
+    dget sc' (s "via") = some ((dget sc (s "via2")).getD .null) ∧ dget sc' (s "via2") = none ∧
+    dget sc' (s "ip_address") = none ∧ dget sc' (s "source_address") = none ∧
+    dget sc' (s "tls_established") = none := by
+  unfold server18 at h
+  simp only [Option.bind_eq_bind, Option.bind_eq_some_iff] at h
+  obtain ⟨c1, hc1, h⟩ := h
+  obtain ⟨a, -, -, -⟩ := conn18_renames _ _ hc1
+  have fr : ∀ m, (s "sni" == m) = false → (s "tls_established" == m) = false → (s "cipher_name" == m) = false →
+      (s "cipher" == m) = false → (s "transport_protocol" == m) = false → (s "peername" == m) = false →
+      (s "sockname" == m) = false → (s "address" == m) = false → dget sc' m = dget (server18pre sc) m :=
+    fun m g5 h1 h2 h3 h4 h5 h6 h7 => by
+      rw [sniFix_frame _ _ _ h g5, conn18_frame _ _ m hc1 h1 h2 h3 h4 h5 h6 h7]
+  refine ⟨?_, ?_, ?_, ?_, ?_⟩
+  · rw [fr _ (by decide +kernel) (by decide +kernel) (by decide +kernel) (by decide +kernel) (by decide +kernel)
+      (by decide +kernel) (by decide +kernel) (by decide +kernel)]
+    unfold server18pre
+    rw [dget_rename_new, dget_rename_ne _ _ _ _ (by decide +kernel) (by decide +kernel),
+      dget_rename_ne _ _ _ _ (by decide +kernel) (by decide +kernel)]
+  · rw [fr _ (by decide +kernel) (by decide +kernel) (by decide +kernel) (by decide +kernel) (by decide +kernel)
+      (by decide +kernel) (by decide +kernel) (by decide +kernel)]
+    unfold server18pre rename
+    rw [dget_dset_ne _ _ _ _ (by decide +kernel)]; exact dget_dpop_same _ _
+  · rw [fr _ (by decide +kernel) (by decide +kernel) (by decide +kernel) (by decide +kernel) (by decide +kernel)
+      (by decide +kernel) (by decide +kernel) (by decide +kernel)]
+    unfold server18pre
+    rw [dget_rename_ne _ _ _ _ (by decide +kernel) (by decide +kernel),
+      dget_rename_ne _ _ _ _ (by decide +kernel) (by decide +kernel)]
+    unfold rename
+    rw [dget_dset_ne _ _ _ _ (by decide +kernel)]; exact dget_dpop_same _ _
+  · rw [fr _ (by decide +kernel) (by decide +kernel) (by decide +kernel) (by decide +kernel) (by decide +kernel)
+      (by decide +kernel) (by decide +kernel) (by decide +kernel)]
+    unfold server18pre
+    rw [dget_rename_ne _ _ _ _ (by decide +kernel) (by decide +kernel)]
+    unfold rename
+    rw [dget_dset_ne _ _ _ _ (by decide +kernel)]; exact dget_dpop_same _ _
+  · rw [sniFix_frame _ _ _ h (by decide +kernel)]; exact a
+
+/-- **host_decode_valid_utf8 / host_decode_ascii.** A host name recorded as valid UTF-8 bytes (in particular ASCII)
+    is the same text after the decode; an undecodable byte becomes the four characters `\xNN` (`bsrCp_escape`). -/
+theorem host_decode_valid_utf8 (b : Bytes) (h : ∀ cp ∈ MitmVerif.C35.native b, ¬ (0xDC80 ≤ cp ∧ cp ≤ 0xDCFF)) :
+    bsrUtf8 b = b := bsrUtf8_valid b h
+
+theorem host_decode_ascii (b : Bytes) (h : ∀ c ∈ b, c.toNat < 0x80) : bsrUtf8 b = b := bsrUtf8_ascii b h
+
+theorem host_decode_escape (n : Nat) (h : 0x80 ≤ n ∧ n ≤ 0xFF) :
+    bsrCp (0xDC00 + n) = [0x5c, 0x78, hexd (n / 16), hexd (n % 16)] := bsrCp_escape n h
+
+/-! #### the whole modelled chain 12 → 21 -/
+
+def chain12_21 (d : Dict) : Option Dict := chain12_18 d >>= conv_18_19 >>= chain19
+
+/-- a sequence of modelled converter steps starting at version `v` -/
+inductive Steps : Nat → Dict → Dict → Prop where
+  | nil (v : Nat) (d : Dict) : Steps v d d
+  | cons (v : Nat) (f : Dict → Option Dict) (d d1 d2 : Dict) :
+      conv v = some f → f d = some d1 → Steps (v + 1) d1 d2 → Steps v d d2
+
+/-- **steps_request_preserved.** However many modelled converters run, one after the other, the recorded request —
+    and `id`, `type`, `error`, `intercepted` — come out as they went in. -/
+theorem steps_request_preserved (v : Nat) (d d' : Dict) (h : Steps v d d') :
+    dget d' (s "request") = dget d (s "request") ∧ dget d' (s "id") = dget d (s "id") ∧
+    dget d' (s "type") = dget d (s "type") ∧ dget d' (s "error") = dget d (s "error") ∧
+    dget d' (s "intercepted") = dget d (s "intercepted") := by
+  induction h with
+  | nil => exact ⟨rfl, rfl, rfl, rfl, rfl⟩
+  | cons v f d d1 d2 hf hd _ ih =>
+    obtain ⟨a1, a2, a3, a4, a5⟩ := request_preserved v f d d1 hf hd
+    obtain ⟨b1, b2, b3, b4, b5⟩ := ih
+    exact ⟨b1.trans a1, b2.trans a2, b3.trans a3, b4.trans a4, b5.trans a5⟩
+
+theorem chain12_21_steps (d d' : Dict) (h : chain12_21 d = some d') : Steps 12 d d' := by
+  unfold chain12_21 chain12_18 chain19 at h
+  simp only [Option.bind_eq_bind, Option.bind_eq_some_iff] at h
+  obtain ⟨d19, ⟨d18, ⟨d17, ⟨d16, ⟨d15, ⟨d14, ⟨d13, h12, h13⟩, h14⟩, h15⟩, h16⟩, h17⟩, h18⟩, d20, h19, h20⟩ := h
+  exact .cons 12 _ _ _ _ rfl h12 (.cons 13 _ _ _ _ rfl h13 (.cons 14 _ _ _ _ rfl h14 (.cons 15 _ _ _ _ rfl h15
+    (.cons 16 _ _ _ _ rfl h16 (.cons 17 _ _ _ _ rfl h17 (.cons 18 _ _ _ _ rfl h18 (.cons 19 _ _ _ _ rfl h19
+    (.cons 20 _ _ _ _ rfl h20 (.nil _ _)))))))))
+
+/-- **chain_request_preserved.** A format-12 record taken through all nine modelled converters keeps its request and
+    arrives at version 21. -/
+theorem chain_request_preserved (d d' : Dict) (h : chain12_21 d = some d') :
+    dget d' (s "request") = dget d (s "request") ∧ dget d' (s "version") = some (.int 21) := by
+  refine ⟨(steps_request_preserved 12 d d' (chain12_21_steps d d' h)).1, ?_⟩
+  unfold chain12_21 chain12_18 chain19 at h
+  simp only [Option.bind_eq_bind, Option.bind_eq_some_iff] at h
+  obtain ⟨d19, -, d20, -, h20⟩ := h
+  exact conv_writes_next_version 20 _ d20 d' rfl h20
+
 -- non-vacuity: a concrete format-12 record runs through the modelled chain 12 → 18 and keeps its request
 example :
     let req : Value := .dict [(.str (s "path"), .bytes (s "/x")), (.str (s "timestamp_start"), .int 5)]
@@ -220,6 +380,18 @@ example :
                      (.str (s "client_conn"), .dict [(.str (s "timestamp_start"), .int 5)]),
                      (.str (s "websocket"), .null), (.str (s "mode"), .str (s "regular"))]
     (chain12_18 d).isSome = true := by decide +kernel
+
+-- non-vacuity for 18→19: bytes host names are decoded (an invalid byte becomes `\\xff`), `sni = True` becomes the host
+example :
+    let cc : Value := .dict [(.str (s "address"), .list [.bytes [0x61, 0xff], .int 80]), (.str (s "tls_extensions"), .null),
+                             (.str (s "tls_established"), .bool false), (.str (s "timestamp_start"), .null)]
+    let sc : Value := .dict [(.str (s "address"), .list [.bytes (s "example.com"), .int 443]), (.str (s "sni"), .bool true),
+                             (.str (s "tls_established"), .bool true), (.str (s "cipher_name"), .str (s "X"))]
+    let d : Dict := [(.str (s "version"), .int 18), (.str (s "client_conn"), cc), (.str (s "server_conn"), sc)]
+    (((conv_18_19 d).bind (fun d' => (dget d' (s "server_conn")).bind asDict)).bind (fun sc' => dget sc' (s "sni"))).map enc
+      = some (enc (.str (s "example.com"))) ∧
+    (((conv_18_19 d).bind (fun d' => (dget d' (s "client_conn")).bind asDict)).bind (fun cc' => dget cc' (s "peername"))).map enc
+      = some (enc (.list [.str [0x61, 0x5c, 0x78, 0x66, 0x66], .int 80])) := by decide +kernel
 
 end Converters
 
